@@ -5,9 +5,10 @@ Go anchors
   kv/table/builder.go      storeBuilder (Add, afterWrite, ensureIncreasingKey, Close), streamWriter
   kv/table/reader.go       storeMMapReader (newMMapStoreReader, initialize, Get, getBlock), storeMMapIterator
   kv/table/constants.go    footer layout (tied to LinVerif.Generated.C15 in Props/C15.lean)
-  pkg/encoding/fixed_offset.go   FixedOffsetEncoder.Add/Write, FixedOffsetDecoder.Unmarshal/Get/GetBlock
-  pkg/encoding/encoding.go       Uint32MinWidth
-  encoding/binary                PutUvarint / Uvarint / LittleEndian (Go stdlib, modelled byte-exactly)
+  pkg/encoding/fixed_offset.go   = Model/FixedOffset.lean (C14's byte-exact model, used as is:
+                                 `Enc.add/marshal`, `Dec.unmarshal/sizeOf/get/getBlock`; its round trip is
+                                 `Props.C14.fixedoffset_roundtrip` / `fixedoffset_getBlock_correct`)
+  encoding/binary                LittleEndian PutUint32/PutUint64/Uint32/Uint64 for the footer
   kv/version/version.go    FindFiles;  kv/version/snapshot.go  Load / FindReaders
 
 A byte is a `Nat` (the driver only ever feeds values < 256; nothing in the model depends on
@@ -16,6 +17,8 @@ bitmap is external: it is the parameter `KeySetOps` (operations) with the contra
 `KeySetOps.Lawful` (LinVerif/Lemmas/C15Table.lean); `listKeySet` is the executable stand-in used
 by the driver, proved lawful.
 -/
+import LinVerif.Model.FixedOffset
+
 namespace LinVerif.Table
 
 abbrev Bytes := List Nat
@@ -43,88 +46,6 @@ def leVal : Bytes → Nat
   | [] => 0
   | b :: t => b + 256 * leVal t
 
-/-- `binary.PutUvarint`: `for x >= 0x80 { buf[i] = byte(x) | 0x80; x >>= 7; i++ }; buf[i] = byte(x)`.
-Fuel 10 = `MaxVarintLen64`; exact for every x < 2^70 (Go: x is a uint64). -/
-def putUvarintAux : Nat → Nat → Bytes
-  | 0, x => [x % 256]
-  | f + 1, x => if x < 128 then [x] else (x % 128 + 128) :: putUvarintAux f (x / 128)
-
-def putUvarint (x : Nat) : Bytes := putUvarintAux 10 x
-
-/-- `binary.Uvarint` loop; `none` = the `n <= 0` results (buffer too small / overflow).
-`x | uint64(b&0x7f)<<s` is written `+`: the shifted 7 bits lie above every bit of x. -/
-def uvarintAux : Bytes → Nat → Nat → Nat → Option (Nat × Nat)
-  | [], _, _, _ => none
-  | b :: t, i, x, s =>
-    if i = 10 then none
-    else if b < 128 then
-      (if i = 9 ∧ b > 1 then none else some (x + b * 2 ^ s, i + 1))
-    else uvarintAux t (i + 1) (x + (b % 128) * 2 ^ s) (s + 7)
-
-def uvarint (buf : Bytes) : Option (Nat × Nat) := uvarintAux buf 0 0 0
-
-/-! ## pkg/encoding: Uint32MinWidth, FixedOffsetEncoder, FixedOffsetDecoder -/
-
-/-- `encoding.Uint32MinWidth` -/
-def minWidth (v : Nat) : Nat :=
-  if v < 256 then 1 else if v < 65536 then 2 else if v < 16777216 then 3 else 4
-
-def u32 (v : Nat) : Nat := v % 4294967296
-
-/-- `FixedOffsetEncoder.Write` (= MarshalBinary): nothing for an empty encoder, otherwise
-width byte, uvarint count, every value as the first `width` bytes of its little-endian uint32. -/
-def encodeOffsets (values : List Nat) (max : Nat) : Bytes :=
-  if values.isEmpty then []
-  else
-    let width := minWidth (u32 max)
-    [width] ++ putUvarint values.length ++
-      values.flatMap (fun v => (leBytes 4 (u32 v)).take width)
-
-/-- `FixedOffsetDecoder` -/
-structure Decoder where
-  block : Bytes
-  width : Nat
-  size : Nat
-deriving Repr
-
-/-- `FixedOffsetDecoder.Unmarshal`; `none` = error. (The `wantLen < 0 || 1+readBytes > wantLen`
-overflow guards cannot fire over `Nat`.) -/
-def Decoder.unmarshal (data : Bytes) : Option Decoder :=
-  if data.length < 2 then none
-  else
-    match data with
-    | [] => none
-    | width :: rest =>
-      if width > 4 then none
-      else
-        match uvarint rest with
-        | none => none
-        | some (size, readBytes) =>
-          let wantLen := 1 + readBytes + width * size
-          if wantLen > data.length then none
-          else some { block := (data.take wantLen).drop (1 + readBytes), width := width, size := size }
-
-/-- `FixedOffsetDecoder.Size` -/
-def Decoder.count (d : Decoder) : Nat := if d.width = 0 then 0 else d.size
-
-/-- `FixedOffsetDecoder.Get` -/
-def Decoder.get (d : Decoder) (index : Nat) : Option Nat :=
-  let start := index * d.width
-  if d.block.length = 0 ∨ start ≥ d.block.length ∨ d.width > 4 then none
-  else if start + d.width > d.block.length then none
-  else some (leVal ((d.block.drop start).take d.width))
-
-/-- `FixedOffsetDecoder.GetBlock`; `none` = the "corrupted" errors. -/
-def Decoder.getBlock (d : Decoder) (index : Nat) (dataBlock : Bytes) : Option Bytes :=
-  match d.get index with
-  | none => none
-  | some startOffset =>
-    let endOffset := match d.get (index + 1) with
-      | some e => e
-      | none => dataBlock.length        -- `if !ok { endOffset = len(dataBlock) }`
-    if endOffset < startOffset ∨ endOffset > dataBlock.length then none
-    else some ((dataBlock.drop startOffset).take (endOffset - startOffset))
-
 /-! ## the roaring bitmap as a parameter -/
 
 /-- The operations lindb uses on `*roaring.Bitmap` (`New`, `Add`, `Contains`, `Rank`,
@@ -151,12 +72,11 @@ structure SW where
 deriving Repr
 
 /-- `storeBuilder`. `chunksRev`/`size` = the bufio writer (chunks newest first, running size);
-`offsRev`/`offMax` = `FixedOffsetEncoder.values` (newest first) and `.max`. -/
+`offset` = the `FixedOffsetEncoder` created by `NewFixedOffsetEncoder(true)`. -/
 structure Builder (B : Type) where
   chunksRev : List Bytes := []
   size : Nat := 0
-  offsRev : List Nat := []
-  offMax : Nat := 0
+  offset : FixedOffset.Enc := FixedOffset.Enc.fresh true
   keys : B
   minKey : Nat := 0
   maxKey : Nat := 0
@@ -171,8 +91,8 @@ def Builder.init (K : KeySetOps B) : Builder B := { keys := K.empty }
 /-- bytes written so far (`writer`'s content) -/
 def Builder.written (b : Builder B) : Bytes := b.chunksRev.reverse.flatten
 
-/-- `FixedOffsetEncoder.values` in insertion order -/
-def Builder.offsets (b : Builder B) : List Nat := b.offsRev.reverse
+/-- `FixedOffsetEncoder.values` -/
+def Builder.offsets (b : Builder B) : List Int := b.offset.values
 
 /-- `storeBuilder.ensureIncreasingKey` -/
 def Builder.ensureIncreasingKey (b : Builder B) (key : Nat) : Bool :=
@@ -184,22 +104,19 @@ def Builder.ensureIncreasingKey (b : Builder B) (key : Nat) : Bool :=
 def Builder.write (b : Builder B) (data : Bytes) : Builder B :=
   { b with chunksRev := data :: b.chunksRev, size := b.size + data.length }
 
-/-- the assignments of `storeBuilder.afterWrite` (after `offset.Add` did not panic) -/
-def Builder.register (K : KeySetOps B) (b : Builder B) (key offset : Nat) : Builder B :=
-  { b with
-    offsRev := offset :: b.offsRev
-    offMax := if b.offMax < offset then offset else b.offMax
-    keys := K.add b.keys key
-    minKey := if b.first then key else b.minKey
-    maxKey := key
-    first := false }
-
-/-- `storeBuilder.afterWrite`; `none` = the panic of `FixedOffsetEncoder.Add`
-("value added to FixedOffsetEncoder must be increasing"), raised before anything is changed. -/
+/-- `storeBuilder.afterWrite`: `b.offset.Add(offset)` first — its panic ("value added to
+FixedOffsetEncoder must be increasing") is `none`, raised before anything is changed — then
+`keys.Add`, min/max/first. -/
 def Builder.afterWrite (K : KeySetOps B) (b : Builder B) (key offset : Nat) : Option (Builder B) :=
-  match b.offsRev with
-  | last :: _ => if last > offset then none else some (b.register K key offset)
-  | [] => some (b.register K key offset)
+  match b.offset.add (offset : Int) with
+  | .error _ => none
+  | .ok enc =>
+    some { b with
+      offset := enc
+      keys := K.add b.keys key
+      minKey := if b.first then key else b.minKey
+      maxKey := key
+      first := false }
 
 /-- `storeBuilder.Add` (always returns nil apart from I/O errors, which are not modelled) -/
 def Builder.add (K : KeySetOps B) (b : Builder B) (key : Nat) (value : Bytes) : Option (Builder B) :=
@@ -242,7 +159,7 @@ def Builder.close (K : KeySetOps B) (b : Builder B) : Option Bytes :=
   if K.isEmpty b.keys then none
   else
     let posOfOffset := b.size
-    let offset := encodeOffsets b.offsets b.offMax
+    let offset := b.offset.marshal     -- b.offset.MarshalBinary()
     let keys := K.marshal b.keys
     let posOfKeys := posOfOffset + offset.length
     some (b.written ++ offset ++ keys ++ footer posOfOffset posOfKeys)
@@ -276,7 +193,7 @@ def Builder.run (K : KeySetOps B) (b : Builder B) : List Op → Option (Builder 
 /-- `storeMMapReader` after `initialize` -/
 structure Reader (B : Type) where
   keys : B
-  offsets : Decoder
+  offsets : FixedOffset.Dec
   entries : Bytes
 
 /-- `newMMapStoreReader` + `initialize` on the mapped bytes; `none` = any of its errors.
@@ -292,13 +209,14 @@ def Reader.open (K : KeySetOps B) (full : Bytes) : Option (Reader B) :=
       -- sort.IntsAreSorted([0, posOfOffset, posOfKeys, footerStart])
       if ¬ (posOfOffset ≤ posOfKeys ∧ posOfKeys ≤ footerStart) then none
       else
-        match Decoder.unmarshal ((full.take posOfKeys).drop posOfOffset) with
-        | none => none
-        | some dec =>
+        -- r.offsets = encoding.NewFixedOffsetDecoder(); r.offsets.Unmarshal(offsetsBlock)
+        match FixedOffset.Dec.fresh.unmarshal ((full.take posOfKeys).drop posOfOffset) with
+        | (.error _, _) => none
+        | (.ok _, dec) =>
           match K.unmarshal (full.drop posOfKeys) with
           | none => none
           | some keys =>
-            if dec.count ≠ K.card keys then none
+            if dec.sizeOf ≠ (K.card keys : Int) then none
             else some { keys := keys, offsets := dec, entries := full.take posOfOffset }
 
 inductive GetRes where
@@ -311,20 +229,17 @@ deriving Repr, DecidableEq
 def Reader.get (K : KeySetOps B) (r : Reader B) (key : Nat) : GetRes :=
   if !K.contains r.keys key then .absent
   else
-    let idx := K.rank r.keys key
-    if idx = 0 then .corrupt       -- Go: Get(-1) fails on `start < 0`
-    else
-      match r.offsets.getBlock (idx - 1) r.entries with
-      | some v => .ok v
-      | none => .corrupt
+    match r.offsets.getBlock ((K.rank r.keys key : Int) - 1) r.entries with
+    | .ok v => .ok v
+    | .error _ => .corrupt
 
 /-- `storeMMapIterator` run to exhaustion: the i-th `Key()` is the i-th key of the bitmap
 iterator, the i-th `Value()` is `getBlock(i)` with the error dropped (`block, _ :=` ⇒ nil). -/
 def Reader.iterate (K : KeySetOps B) (r : Reader B) : List (Nat × Bytes) :=
   (K.toList r.keys).zipIdx.map (fun (k, i) =>
-    (k, match r.offsets.getBlock i r.entries with
-        | some v => v
-        | none => []))
+    (k, match r.offsets.getBlock (i : Int) r.entries with
+        | .ok v => v
+        | .error _ => []))
 
 /-! ## kv/version: FileMeta, Version.FindFiles, Snapshot.Load -/
 
@@ -362,6 +277,15 @@ def loadFiles (K : KeySetOps B) (fs : Nat → Option Bytes) (key : Nat) : List F
 /-- `snapshot.Load(key, loader)`: the values handed to `loader`, in call order -/
 def load (K : KeySetOps B) (fs : Nat → Option Bytes) (levels : List (List FileMeta)) (key : Nat) : Option (List Bytes) :=
   loadFiles K fs key (findFiles levels key)
+
+/-- `snapshot.FindReaders(key)`: a reader (here: its file number) for every file found, `none` =
+the error return when the cache cannot open one of them -/
+def findReaders (K : KeySetOps B) (fs : Nat → Option Bytes) (levels : List (List FileMeta)) (key : Nat) :
+    Option (List Nat) :=
+  (findFiles levels key).mapM (fun f =>
+    match fs f.fileNumber with
+    | none => none
+    | some bytes => (Reader.open K bytes).map (fun _ => f.fileNumber))
 
 /-! ## executable stand-in for the bitmap: keys kept in descending order -/
 
